@@ -641,7 +641,19 @@ func runC29(c *vh.Ctx, concurrent bool) {
 			if before != nil {
 				o.wb = w.idFP(*before)
 			}
-			conn, err := roller.Dial("tcp", ln.Addr().String(), name)
+			// a Dial makes at most nids+1 attempts, each bounded by the two timeouts; one that is still running long after
+			// that does not enforce its handshake timeout (only a black-holing server can make that visible)
+			var conn *tls.UConn
+			var err error
+			returned := make(chan struct{})
+			go func() { defer close(returned); conn, err = roller.Dial("tcp", ln.Addr().String(), name) }()
+			select {
+			case <-returned:
+			case <-time.After(time.Duration(nids+1)*(timeout+roller.TcpDialTimeout) + 20*time.Second):
+				c.Fail("no-timeout", "Dial did not return although every attempt has a handshake timeout", map[string]any{"ids": fmt.Sprint(idFPs), "timeout_ms": timeout.Milliseconds()}, "still running", "")
+				srv.release()
+				<-returned
+			}
 			if err != nil {
 				o.err = err.Error()
 				var oe *net.OpError
